@@ -4,7 +4,7 @@
               EVERY worklist schedule and every symbol order.
    FifoSpec : every classic (including the large ones), queue served first-in first-out as the code does, symbol
               order still free; also used for the liveness check (the construction terminates). *)
-EXTENDS Builder, Universe, Classics, IOUtils
+EXTENDS Builder, Universe, Classics, IOUtils, Numbering
 UPick == CASE IOEnv.UNIVERSE = "U1" -> U1
            [] IOEnv.UNIVERSE = "U2" -> U2
            [] IOEnv.UNIVERSE = "U3a" -> U3a
@@ -18,4 +18,16 @@ Spec == Init /\ [][Next]_bvars
 FifoInit == BInit(UPick \cup ClassicSet)
 FifoSpec == FifoInit /\ [][BNextFifo]_bvars /\ WF_bvars(BNextFifo)
 Terminates == <>(ph = "done")
+(* normalize_machine (Numbering.tla): sorting the states by content turns the schedule-dependent result of the builder
+   into ONE machine, the one defined from the declarative LALR(1) automaton - for every schedule and symbol order.
+   The terminal order is any fixed total order here (the code's is the byte order of the names). *)
+TRankOf(G) == LET s == SetToSeq(G.ts) IN [t \in G.ts |-> CHOOSE k \in DOMAIN s : s[k] = t]
+NormalFormIsCanonical ==
+  ph = "done" =>
+    LET tr == TRankOf(ctx.G)
+        LS == LALRStates(ctx)
+        perm == SortPerm(tr, states)
+    IN /\ IsBijection(perm, Len(states))
+       /\ StrictTotal(tr, LS)
+       /\ Normalize(AsMachine, perm) = CanonMachine(ctx, LS, tr)
 =============================================================================
